@@ -302,7 +302,7 @@ def write_evidence(mod, tier, total, wall, violations, extra_cov=None):
     cov = {
         "evaluations": int(total["evaluations"]),
         "distinct_nontrivial": len(total["nontrivial"]),
-        "rule": mod.RULE,
+        "rule": mod.RULE + ((" Added later: " + mod.RULE_MORE) if getattr(mod, "RULE_MORE", None) else ""),
         "samples": total["samples"][:5] or ["(no non-trivial sample recorded)"],
         "classes": dict(sorted(total["labels"].items())),
         "known_finding_hits": dict(total["known_hits"]),
